@@ -1496,7 +1496,88 @@ impl World {
                 kst.insert(slot.clone(), json!("none"));
             }
         }
+        // The trust anchor's side of its exchanges with the top CA: what
+        // the proxy has queued for the signer, the responses waiting for the
+        // CA, the keys of the CA the TA has certified and those whose
+        // certificate it publishes -- by the role of the key in the CA.
+        let mut taq: BTreeSet<&'static str> = BTreeSet::new();
+        let mut tar: BTreeSet<&'static str> = BTreeSet::new();
+        let mut taiss: BTreeSet<String> = BTreeSet::new();
+        let mut tapub: BTreeSet<String> = BTreeSet::new();
+        let kind_of = |this: &Self, key: &str, odd: &mut Vec<String>|
+            -> Option<&'static str>
+        {
+            match this.key_roles.get(key) {
+                Some((ca, role)) if ca == &this.top => match role.as_str() {
+                    "pend" => Some("pend"), "cur" => Some("cur"),
+                    "new" => Some("new"), "old" => Some("rev"),
+                    _ => None,
+                },
+                other => {
+                    odd.push(format!("ta: request for key of {other:?}"));
+                    None
+                }
+            }
+        };
+        if let Ok(proxy) = self.env.krill.ca_manager().get_trust_anchor_proxy()
+        {
+            let d = serde_json::to_value(proxy.as_ref()).unwrap_or_default();
+            if let Some(child) = d["child_details"].get(&self.top) {
+                for (field, target) in [
+                    ("open_requests", &mut taq), ("open_responses", &mut tar),
+                ] {
+                    for key in child[field].as_object().map(|m| {
+                        m.keys().cloned().collect::<Vec<_>>()
+                    }).unwrap_or_default() {
+                        if let Some(k) = kind_of(self, &key, &mut odd) {
+                            target.insert(k);
+                        }
+                    }
+                }
+            }
+            for key in d["signer"]["objects"]["issued"].as_object().map(|m| {
+                m.keys().cloned().collect::<Vec<_>>()
+            }).unwrap_or_default() {
+                match self.key_roles.get(&key) {
+                    Some((ca, role)) if ca == &self.top => {
+                        taiss.insert(role.clone());
+                    }
+                    other => odd.push(format!("ta: cert for {other:?}")),
+                }
+            }
+        }
+        if let Ok(details) = repo.get_publisher_details(
+            ca_handle("ta").convert()
+        ) {
+            let d = serde_json::to_value(&details).unwrap_or_default();
+            for f in d["current_files"].as_array().cloned()
+                .unwrap_or_default()
+            {
+                let uri = f["uri"].as_str().unwrap_or("");
+                if !uri.ends_with(".cer") {
+                    continue
+                }
+                use base64::Engine;
+                let data = base64::engine::general_purpose::STANDARD.decode(
+                    f["base64"].as_str().unwrap_or("")
+                ).unwrap_or_default();
+                if let Ok(cert) = rpki::repository::cert::Cert::decode(
+                    Bytes::from(data)
+                ) {
+                    let subject = cert.subject_key_identifier().to_string();
+                    match self.key_roles.get(&subject) {
+                        Some((ca, role)) if ca == &self.top => {
+                            tapub.insert(role.clone());
+                        }
+                        other => odd.push(format!(
+                            "ta publishes a cert for {other:?}"
+                        )),
+                    }
+                }
+            }
+        }
         json!({
+            "taq": taq, "tar": tar, "taiss": taiss, "tapub": tapub,
             "pst": pst, "rst": rst, "kst": kst, "pubknown": pubknown,
             "exists": exists, "parent": parent, "hasp": hasp,
             "ent": ent, "cstate": cstate,
